@@ -8,6 +8,10 @@ Requests (all paths are strings; the sandbox root is written `/S` by the harness
 * `{"op":"copy"|"link","dest":..,"fs":..,"ref":"..","kind":"file"|"dir"}`
 Answer: `{"result":"ok"|"rejected"|"os"|"linkMissing","tree":[[path,kind,target],..],"log":[path,..]}` with the tree
 restricted to locations reachable by listing (every bound location whose ancestors are directories), sorted.
+Extract answers also carry `normpathOk` (= `checkNormpath`: would the textual-normalisation rule for link targets
+accept the archive) and `fixedOk` (= `checkFixed`).  With `"fixed":false` the log is the one of `looseExtract`:
+unchecked extraction that goes on after a member that could not be extracted — the harness uses it only to
+decide whether a case could touch anything outside the sandbox root whatever the code under test accepts.
 -/
 open Lean Proto St4sd.Confine St4sd.Str
 
@@ -84,6 +88,33 @@ def answer (r : St × Option Err) : Json :=
   let log := (r.1.log.map pathStr).toArray.qsort (· < ·)
   jobj [("result", jstr res), ("tree", treeJson r.1.fs), ("log", jarr (log.toList.eraseDups.map jstr))]
 
+/-- same name up to `.`/empty components -/
+def sameName (a b : RawPath) : Bool := a.abs == b.abs && a.segs == b.segs
+
+def rename (n : RawPath) : Member → Member
+  | Member.file _ => Member.file n
+  | Member.dir _ => Member.dir n
+  | Member.sym _ t => Member.sym n t
+  | Member.hard _ t => Member.hard n t
+
+/-- safety over-approximation of what unchecked `extractall` may touch: members in order; a member that fails
+is skipped and extraction goes on with the state reached (tarfile reports some link failures without stopping);
+for a failed hard link whose target names an earlier member that member is extracted under the link's name
+(tarfile's copy-instead-of-link fallback). -/
+def looseExtract (dest : Path) : St → List Member → List Member → St
+  | st, _, [] => st
+  | st, seen, m :: ms =>
+    match extractOne dest st m with
+    | (st1, none) => looseExtract dest st1 (m :: seen) ms
+    | (st1, some _) =>
+      let st2 := match m with
+        | Member.hard n t =>
+          match seen.find? (fun e => sameName e.name t) with
+          | some e => (extractOne dest st1 (rename n e)).1
+          | none => st1
+        | _ => st1
+      looseExtract dest st2 (m :: seen) ms
+
 def handle (j : Json) : Except String Json := do
   let op ← getStr j "op"
   let fs ← parseFs j
@@ -92,7 +123,10 @@ def handle (j : Json) : Except String Json := do
     let dest := physOf (← getStr j "dest")
     let ms ← (← getArr j "members").mapM parseMember
     let fixed ← getBool j "fixed"
-    return answer (if fixed then stageExtractFixed dest ⟨fs, []⟩ ms else stageExtractOld dest ⟨fs, []⟩ ms)
+    let r := if fixed then stageExtractFixed dest ⟨fs, []⟩ ms else stageExtractOld dest ⟨fs, []⟩ ms
+    let r := if !fixed && checkOld dest ms then ({ r.1 with log := (looseExtract dest ⟨fs, []⟩ [] ms).log }, r.2) else r
+    return (answer r).mergeObj (jobj [("normpathOk", Json.bool (checkNormpath dest ms)),
+                                      ("fixedOk", Json.bool (checkFixed dest ms))])
   | "deploy" =>
     let target := physOf (← getStr j "target")
     let es ← (← getArr j "entries").mapM parseEntry
